@@ -22,6 +22,8 @@ Good ==
      { St("lit" \o l[1] \o ":" \o v, SExpr(Asg(v, Obj(l[2], FreshVals(l[2]))))) : v \in Vars, l \in Lits }
   \cup { St("alias:" \o v, SExpr(Asg(v, Id(Other(v))))) : v \in Vars }
   \cup { St("write:" \o v \o "." \o k, SExpr(PAsg(Id(v), k, Fresh))) : v \in Vars, k \in Keys3 }
+  \cup { St("writenil:" \o v \o "." \o k, SExpr(PAsg(Id(v), k, Lit(VNil)))) : v \in Vars, k \in {"a"} }     \* a property holding nil exists
+  \cup { St("litnil:" \o v, SExpr(Asg(v, Obj(<<"b", "a">>, <<Lit(VNil), Lit(VNil)>>)))) : v \in {"o"} }
   \cup { St("del:" \o v \o "." \o k, SExpr(Call(Id("delkey"), <<Id(v), Str(k)>>))) : v \in Vars, k \in Keys3 }
   \cup { St("read:" \o v \o "." \o k, SPrint(Prop(Id(v), k))) : v \in Vars, k \in Keys3 }
   \cup { St("nest:" \o v, SExpr(PAsg(Id(v), "a", Id(Other(v))))) : v \in Vars }
